@@ -49,3 +49,15 @@ func VerifC18RangesTotal() {
 		zzverif.Reach("C18.ranges.rejected")
 	}
 }
+
+// VerifSelfTypes: translator validation kernel.
+func VerifSelfTypes() {
+	for _, s := range []string{"1000-2000,3000", "1,2-3", "5-4", "a", "", "7", " 8 - 9 "} {
+		out, err := NewPortsRangeSliceFromString(s)
+		zzverif.Observe("parse:"+s, len(out), err != nil)
+		for _, r := range out {
+			zzverif.Observe("r", r.Start, r.End, r.Single)
+		}
+		zzverif.Observe("str", PortsRangeSlice(out).String())
+	}
+}
